@@ -118,7 +118,7 @@ class Patcher:
             self.meta(k, e.meta)
             for vi, v in enumerate(e.enumeration):
                 v.name = self.s(f"{k}.v{vi}.name", v.name)
-                v.value = self.i(f"{k}.v{vi}.value", -2 ** 31, 2 ** 31 - 1, v.value)
+                v.value = self.i(f"{k}.v{vi}.value", -2 ** 63, 2 ** 63 - 1, v.value)
                 self.meta(f"{k}.v{vi}", v.meta)
         for ii, im in enumerate(fcp.impls):
             k = f"impl{ii}"
@@ -218,7 +218,7 @@ def c12_case(args):
     P.patch(fcp)
     feats = {"desc": f"{tname}/strlen{strlen}", "template": tname, "has_signed": True}
     cov = Coverage()
-    eng = Engine(timeout_ms=60000 if tier == "quick" else 300000, max_paths=2000)
+    eng = Engine(timeout_ms=240000 if tier == "quick" else 600000, max_paths=2000)
 
     def body():
         first = fcp.reflection()
